@@ -1,8 +1,8 @@
 SPECIFICATION Spec
 CONSTANTS
-  W0 = 256
+  W0 = 65536
   CH = 16384
-  Msg = 320000
+  Msg = 1600000
   Credits <- Cr_none
   MayCancel = FALSE
 CHECK_DEADLOCK FALSE
